@@ -54,6 +54,17 @@ def enum_needs_lifetime(e):
             return True
     return False
 
+def flat_members(members, hidden=False):
+    """members of a command group, nested groups flattened (a member of a hidden group is hidden): what the generated FromRaw /
+    Autocomplete / Help of nested groups amount to (members tried / scanned / listed in declaration order, UnknownCommand passes on)"""
+    out = []
+    for h, x in members:
+        if "group" in x:
+            out += flat_members(x["group"], hidden or h)
+        else:
+            out.append((hidden or h, x))
+    return out
+
 def rust_str(s):
     out = ""
     for ch in s:
@@ -194,33 +205,40 @@ class Emitter:
         lines.append("}")
         self.items.append("\n".join(lines))
 
+    def emit_group(self, top, mem):
+        """a CommandGroup enum; a member may itself be a group (nested CommandGroup)"""
+        members = []
+        lt = False
+        for i, (hidden, x) in enumerate(mem):
+            if "group" in x:
+                ident, l = self.emit_group("%sN%d" % (top, i), x["group"])
+            else:
+                ident = self.enum_ident(x)
+                l = enum_needs_lifetime(x)
+            lt = lt or l
+            members.append((hidden, ident + ("<'a>" if l else "")))
+        lines = ["#[derive(Debug, Clone, CommandGroup, PartialEq)]", "pub enum %s%s {" % (top, "<'a>" if lt else "")]
+        arms = []
+        for i, (hidden, t) in enumerate(members):
+            if hidden:
+                lines.append("    #[group(hidden)]")
+            lines.append("    M%d(%s)," % (i, t))
+            arms.append("            %s::M%d(x) => x.canon()," % (top, i))
+        lines.append("}")
+        lines.append("impl %s%s {" % (top, "<'_>" if lt else ""))
+        lines.append("    pub fn canon(&self) -> String {\n        match self {")
+        lines.extend(arms)
+        lines.append("        }\n    }\n}")
+        self.items.append("\n".join(lines))
+        return top, lt
+
     def emit_set(self, k, s):
         if s["kind"] == "enum":
             ty = self.enum_ident(s["enum"])
             lt = enum_needs_lifetime(s["enum"])
             top = ty
         else:
-            members = []
-            lt = False
-            for i, (hidden, e) in enumerate(s["members"]):
-                ident = self.enum_ident(e)
-                l = enum_needs_lifetime(e)
-                lt = lt or l
-                members.append((hidden, ident + ("<'a>" if l else "")))
-            top = "G%d" % k
-            lines = ["#[derive(Debug, Clone, CommandGroup, PartialEq)]", "pub enum %s%s {" % (top, "<'a>" if lt else "")]
-            arms = []
-            for i, (hidden, t) in enumerate(members):
-                if hidden:
-                    lines.append("    #[group(hidden)]")
-                lines.append("    M%d(%s)," % (i, t))
-                arms.append("            %s::M%d(x) => x.canon()," % (top, i))
-            lines.append("}")
-            lines.append("impl %s%s {" % (top, "<'_>" if lt else ""))
-            lines.append("    pub fn canon(&self) -> String {\n        match self {")
-            lines.extend(arms)
-            lines.append("        }\n    }\n}")
-            self.items.append("\n".join(lines))
+            top, lt = self.emit_group("G%d" % k, s["members"])
         anon = "<'_>" if lt else ""
         fn = """
 fn ses_d%d(cap: usize, hcap: usize, pi: usize, ops: &str) -> String {
@@ -349,7 +367,8 @@ def ser_enum(e):
 def ser_set(s):
     if s["kind"] == "enum":
         return "E " + ser_enum(s["enum"])
-    return "G %d " % len(s["members"]) + " ".join(("%d " % (1 if h else 0)) + ser_enum(e) for h, e in s["members"])
+    fm = flat_members(s["members"])
+    return "G %d " % len(fm) + " ".join(("%d " % (1 if h else 0)) + ser_enum(e) for h, e in fm)
 
 
 # ---------------------------------------------------------------- declarations: fixed corpus + random
@@ -443,6 +462,22 @@ def corpus_sets():
         {"variant": "Dump", "name": None, "doc": None, "sub": None, "args": [
             arg("hex", "flag", "bool", short=True), arg("verbose", "flag", "bool", short=True)]},
         {"variant": "Topic", "name": None, "doc": None, "sub": None, "args": [arg("help_me", "flag", "bool", long="help"), arg("what", optional=True)]}]}})
+    # 10: a group with an EMPTY member between two visible ones and a hidden one: `help` prints no title and no blank line for it
+    e10a = {"title": "First", "cmds": [unit("Ping", doc="Ping it"), unit("Pong")]}
+    e10e = {"title": "Nothing", "cmds": []}
+    e10h = {"title": "Hid", "cmds": [unit("Peek")]}
+    e10b = {"title": None, "cmds": [unit("Quit", doc="Leave.")]}
+    sets.append({"kind": "group", "members": [(False, e10a), (False, e10e), (True, e10h), (False, e10b)]})
+    sets.append({"kind": "group", "members": [(False, e10e), (False, e10b)]})
+    # 11, 12: NESTED groups (a CommandGroup as a member of a CommandGroup): inner group with two / three members, one of them hidden or empty,
+    #         an inner group that is hidden as a whole, names shared between inner and outer members
+    n1 = {"title": "Inner one", "cmds": [unit("Alpha", doc="A"), unit("Stat")]}
+    n2 = {"title": "Inner two", "cmds": [unit("Beta"), unit("Status", doc="Shown.")]}
+    n3 = {"title": "Deep", "cmds": [unit("Gamma"), unit("Alpha", doc="Shadowed")]}
+    o1 = {"title": "Outer", "cmds": [unit("Omega", doc="Last"), unit("Stats")]}
+    sets.append({"kind": "group", "members": [(False, {"group": [(False, n1), (False, n2)]}), (False, o1)]})
+    sets.append({"kind": "group", "members": [(False, o1), (False, {"group": [(False, n1), (True, n2), (False, e10e), (False, {"group": [(False, n3), (False, e10e)]})]}),
+                                               (True, {"group": [(False, e10h), (False, n2)]}), (False, {"group": [(False, e10e)]})]})
     return sets
 
 VARIANTS = ["Get", "GetLed", "GetAdc", "Set", "SetLed", "Go", "Status", "Stat", "Start", "Stop", "Helper", "Hello", "He", "Exit", "Led", "Adc", "A", "Ab", "Abc", "Xy"]
@@ -511,11 +546,15 @@ def rand_set(rng):
         members = [(rng.randrange(4) == 0, rand_enum(rng, 1)) for _ in range(n)]
         if all(h for h, _ in members):
             members[0] = (False, members[0][1])
+        if rng.randrange(3) == 0:
+            # a nested group as one more member (somewhere in the order), sometimes with an empty or a hidden member inside
+            inner = [(rng.randrange(4) == 0, rand_enum(rng, 1)), (False, {"title": "None", "cmds": []} if rng.randrange(3) == 0 else rand_enum(rng, 1))]
+            members.insert(rng.randrange(len(members) + 1), (rng.randrange(5) == 0, {"group": inner}))
         return {"kind": "group", "members": members}
     return {"kind": "enum", "enum": rand_enum(rng)}
 
 def all_names(s):
-    es = [s["enum"]] if s["kind"] == "enum" else [e for _, e in s["members"]]
+    es = [s["enum"]] if s["kind"] == "enum" else [e for _, e in flat_members(s["members"])]
     return [cmd_name(c) for e in es for c in e["cmds"]]
 
 def generate(rng, n_random):
@@ -663,7 +702,7 @@ def missing_arg_lines(rng, c, prefix=()):
     return lines
 
 def set_enums(s):
-    return [s["enum"]] if s["kind"] == "enum" else [e for _, e in s["members"]]
+    return [s["enum"]] if s["kind"] == "enum" else [e for _, e in flat_members(s["members"])]
 
 def rand_decl_line(rng, s):
     e = rng.choice(set_enums(s))
@@ -679,4 +718,4 @@ def rand_decl_line(rng, s):
 def visible_names(s):
     if s["kind"] == "enum":
         return [cmd_name(c) for c in s["enum"]["cmds"]]
-    return [cmd_name(c) for h, e in s["members"] if not h for c in e["cmds"]]
+    return [cmd_name(c) for h, e in flat_members(s["members"]) if not h for c in e["cmds"]]
